@@ -33,6 +33,7 @@ POLICIES = {
     "release-all": {"default": {"attribute_restrictions": None}},
     "names-only": {"default": {"attribute_restrictions": {"givenName": None, "mail": None, "eduPersonAffiliation": None}}},
     "regex": {"default": {"attribute_restrictions": {"mail": [r".*@example\.org$"], "eduPersonAffiliation": ["^(staff|member)$"], "givenName": None}}},
+    "regex-unanchored": {"default": {"attribute_restrictions": {"eduPersonAffiliation": ["staff", "mem"], "mail": [r"ann@example\.org"], "uid": ["^a"]}}},
     "per-sp-overrides-default": {"default": {"attribute_restrictions": None},
                                  fed.SP_EID: {"attribute_restrictions": {"sn": None, "mail": [r"^a"]}}},
     "per-sp-other-sp": {"default": {"attribute_restrictions": {"givenName": None}},
@@ -73,8 +74,8 @@ def _to_map():
 
 
 def base_identity(rng, shape):
-    ident = {"givenName": ["Ann"], "sn": ["Müller"], "mail": ["ann@example.org", "ann@evil.example.com"], "displayName": ["Ann Müller"],
-             "eduPersonAffiliation": ["staff", "member", "alum"], "eduPersonPrincipalName": ["ann@example.org"],
+    ident = {"givenName": ["Ann"], "sn": ["Müller"], "mail": ["ann@example.org", "ann@evil.example.com", "joann@example.org"], "displayName": ["Ann Müller"],
+             "eduPersonAffiliation": ["staff", "member", "alum", "non-staff", "ex-member"], "eduPersonPrincipalName": ["ann@example.org"],
              "eduPersonScopedAffiliation": ["staff@example.org"], "eduPersonTargetedID": ["tid-1"], "cn": ["Ann M"], "o": ["Org"],
              "norEduPersonNIN": ["19700101-1234"], "uid": ["ann"], "employeeNumber": ["4711"]}
     if shape == "full":
